@@ -720,6 +720,10 @@ class Distributions(object):
             self.odd = odd
         self.N = 1 + (order if self.odd else order // 2)  # angular terms
         self.use_sin = use_sin
+        if weights is not None:
+            # (binary64: products and sums with integer-typed weights must not
+            #  be evaluated in a narrow integer type)
+            weights = np.asarray(weights, dtype=float)
         self.weights = weights
         if weights is None:
             self.shape = None
